@@ -124,6 +124,9 @@ class Rewrite(ast.NodeTransformer):
 
     def visit_Set(self, node):
         self.generic_visit(node)
+        if self._symkeys_on():
+            return ast.copy_location(
+                ast.Call(ast.Name('sx__symset', ast.Load()), [ast.List(node.elts, ast.Load())], []), node)
         if self._set_on():
             return ast.copy_location(
                 ast.Call(ast.Name('sx__set', ast.Load()), [ast.List(node.elts, ast.Load())], []), node)
@@ -279,6 +282,54 @@ def sx_dictget(d, k, default=None):
     return d.get(k, default)
 
 
+class SymSet:
+    """set whose membership is decided with == (forks on symbolic elements) instead of hashing; insertion ordered"""
+
+    def __init__(self, items=()):
+        self.items = []
+        for x in items:
+            self.add(x)
+
+    def __contains__(self, x):
+        return any(y == x for y in self.items)
+
+    def add(self, x):
+        if x not in self:
+            self.items.append(x)
+
+    def discard(self, x):
+        for i, y in enumerate(self.items):
+            if y == x:
+                del self.items[i]
+                return
+
+    def remove(self, x):
+        n = len(self.items)
+        self.discard(x)
+        if len(self.items) == n:
+            raise KeyError(x)
+
+    def update(self, it):
+        for x in it:
+            self.add(x)
+
+    def __iter__(self):
+        return iter(list(self.items))
+
+    def __len__(self):
+        return len(self.items)
+
+    def __bool__(self):
+        return bool(self.items)
+
+    def copy(self):
+        return SymSet(self.items)
+
+
+def sx_symset(items):
+    return SymSet(items)
+
+
 def sx_mkdict(pairs):
     d = {}
     for k, v in pairs:
@@ -321,6 +372,7 @@ def install(sets=False, symkeys=()):
     builtins.sx__setitem = sx_setitem
     builtins.sx__dictget = sx_dictget
     builtins.sx__mkdict = sx_mkdict
+    builtins.sx__symset = sx_symset
     if _reset_side not in E.PATH_START:
         E.PATH_START.append(_reset_side)
     sys.dont_write_bytecode = True
